@@ -118,6 +118,12 @@ def fresh_reads_case(item):
                 rb = read(shared, path, prop)
                 n_cmp += 1
                 if not same(ra, rb):
+                    # the shared tree has been read before (a read of `price` re-marks an idle
+                    # security, ...): decide on the exact pair - fresh tree, explicit update, this read
+                    b2 = bfs.run_history(spec, prefix, False)
+                    b2.root.update(b2.root.now)
+                    rb = read(b2, path, prop)
+                if not same(ra, rb):
                     viols.append({"rule": "read_not_fresh", "expected": {"node": path, "property": prop, "after_explicit_update": _short(rb)}, "observed": _short(ra), "sig": "fresh|%s.%s" % (type(a.node(path)).__name__, prop), "where": {"path": path, "prop": prop}})
                 ll = last_label(ra[1]) if ra[0] == "ok" else None
                 if ll is not None and ll > now:
@@ -294,6 +300,10 @@ def run(ctx):
         for label, spec, lfresh, lidem in plan:
             ops = ops_for(spec["shape"])
             prefixes = [list(p) for n in range(0, lfresh + 1) for p in itertools.product(ops, repeat=n)]
+            if ctx.tier == "quick":
+                # the longest prefixes start with every other op of the alphabet (rotating with the seed)
+                first = [o for i, o in enumerate(ops) if (i + ctx.seed) % 2 == 0]
+                prefixes = [p for p in prefixes if len(p) < max(2, lfresh) or p[0] in first]
             ncmp = 0
             for (sp, pf), (status, viols, n) in ctx.run(kind, MOD, "fresh_reads_case", [(spec, p) for p in prefixes], chunksize=2):
                 ctx.add(states=1 if status == "ok" else 0, transitions=2 * n, traces_validated_against_impl=2 * n, evaluations=n, refused=1 if status.endswith("refused") else 0)
@@ -303,6 +313,9 @@ def run(ctx):
                 for v in viols:
                     ctx.violation(dict(v, build=kind, module=MOD, case={"kind": "fresh", "spec": spec, "history": pf, "where": v.get("where")}))
             hists = [list(p) for n in range(1, lidem + 1) for p in itertools.product(ops, repeat=n)]
+            if ctx.tier == "quick":
+                first = [o for i, o in enumerate(ops) if (i + ctx.seed) % 2 == 0]
+                hists = [h for h in hists if len(h) < max(3, lidem) or h[0] in first]
             if kind == "cy":
                 hists = [h for h in hists if len(h) < lidem or lidem <= 2]
             nr = 0
